@@ -22,7 +22,8 @@ Definition total_draws (tr : list seed_op) : nat :=
 End Gen.
 
 (** classification of the seeding call sites found in the package *)
-Inductive seed_arg := ConfigRandomState | CheckpointRandomState | CallerArgument | Literal (c : Z) | AttributeSetFromLiteral (c : Z).
+(* CheckpointStreamState: np.random.set_state(<generator state recorded in the checkpoint>) -- a continuation, not a seed *)
+Inductive seed_arg := ConfigRandomState | CheckpointRandomState | CheckpointStreamState | CallerArgument | Literal (c : Z) | AttributeSetFromLiteral (c : Z).
 Record seed_site := mkSite { site_where : nat; site_arg : seed_arg; site_on_run_or_fit_path : bool; site_guarded_by_not_none : bool }.
 Definition site_resets_to_constant (s : seed_site) : bool :=
   site_on_run_or_fit_path s && match site_arg s with Literal _ | AttributeSetFromLiteral _ => true | _ => false end.
